@@ -291,6 +291,7 @@ type c02Run struct {
 	parkedCh   chan struct{}
 	returnedCh chan struct{}
 	entries    int32
+	sawDone    int32
 	once       [4]sync.Once
 
 	mu      sync.Mutex
@@ -377,6 +378,11 @@ func (run *c02Run) exec(w http.ResponseWriter, r *http.Request) {
 			t := time.NewTimer(3 * c02Watchdog)
 			select {
 			case <-r.Context().Done():
+				atomic.StoreInt32(&run.sawDone, 1)
+			case <-run.gate: // the harness gave up waiting for the deadline (inconclusive there)
+				run.mu.Lock()
+				run.stuck = "ctx.Done() had not fired when the gate was opened"
+				run.mu.Unlock()
 			case <-t.C:
 				run.mu.Lock()
 				run.stuck = "ctx.Done() never fired"
